@@ -21,7 +21,7 @@ MANIFEST_BASE = {
         "guard": "verif",
         "enable": "go build -tags verif (the harness module replaces github.com/risor-io/risor with /repo)",
         "baseline_off_cmd": "for m in $(cat /w/out/gomods.txt); do MF=$(cd /repo/$m && . /w/out/goenv.sh && gomodflag); (cd /repo/$m && go test $MF -json -vet=off -count=1 -timeout 25m ./...); done",
-        "source_commits": ["baec371", "1f7de65"],
+        "source_commits": ["baec371", "1f7de65", "b197f03"],
         "add_only": True,
     },
     "engines": [
